@@ -224,14 +224,12 @@ func c15TableLoop(l *Loop, at *ssa.Call, operand ssa.Value) (_ []ssa.Value, errE
 			if !isIf {
 				return nil, nil, false
 			}
-			cmp, isB := iff.Cond.(*ssa.BinOp)
-			if !isB || cmp.X != ssa.Value(at) || !isErrorType(at.Type()) {
+			// the fact on the leaving edge is `result of at != nil`
+			cx, cy, cop, okc := CmpFact(iff.Cond, si == 0)
+			if !okc || cx != ssa.Value(at) || !isErrorType(at.Type()) || cop != token.NEQ {
 				return nil, nil, false
 			}
-			if k, isC := cmp.Y.(*ssa.Const); !isC || !k.IsNil() {
-				return nil, nil, false
-			}
-			if !((cmp.Op == token.NEQ && si == 0) || (cmp.Op == token.EQL && si == 1)) {
+			if k, isC := cy.(*ssa.Const); !isC || !k.IsNil() {
 				return nil, nil, false
 			}
 			errExits = append(errExits, s)
@@ -792,4 +790,382 @@ func c15RecordTableRows(at ssa.CallInstruction, operands []ssa.Value) ([][]ssa.V
 		}
 	}
 	return rows, true
+}
+
+// ---------------------------------------------------------------------------
+// Lists resolved in a first pass and consumed by index in a second one
+
+// c15SameLen: a and b are the same length: the same value, or len() of the same list.
+func c15SameLen(a, b ssa.Value) bool {
+	if a == b {
+		return true
+	}
+	la, okA := a.(*ssa.Call)
+	lb, okB := b.(*ssa.Call)
+	if !okA || !okB {
+		return false
+	}
+	ba, isBa := la.Call.Value.(*ssa.Builtin)
+	bb, isBb := lb.Call.Value.(*ssa.Builtin)
+	return isBa && isBb && ba.Name() == "len" && bb.Name() == "len" && la.Call.Args[0] == lb.Call.Args[0]
+}
+
+// c15ResolvedListElem recognises the two-pass form
+//
+//	res := make([]T, len(src)); for j := range src { ..; res[j] = w(src[j]); .. }   // every way out but the end of the loop is an error
+//	..; for i := range res { use(res[i]) }
+//
+// v is the load `res[i]`. It returns the value w stored by the first pass, the index j of that store and the index i of
+// the load: at the load, res[i] holds what the store put there in the iteration j = i of a loop that ran to its end.
+// That is the same fact as `use(w(src[i]))` in one pass.
+//
+// Conditions (each one is needed for the claim):
+//   - res is a local list made with make([]T, n) (seen through the result phi of an inlined helper: only the
+//     alternatives that are feasible at the load count, and all of them are this list); it and its aliases are used for
+//     nothing but element access, len/cap and such phis (no append, no slicing, not handed to a call);
+//   - there is exactly one element store into it; it is indexed by the counter of a loop that counts 0..n-1 with n the
+//     length res was made with, and its block is passed in every iteration that goes on (dominates the latches);
+//   - the load can only be reached through the loop's regular exit: the phi edges feasible at the load come from
+//     blocks behind the exit edge of the loop header, or (no phi) no other exit of the loop reaches the load.
+func c15ResolvedListElem(v ssa.Value) (w ssa.Value, storeIdx, loadIdx ssa.Value, ok bool) {
+	ld, isLd := v.(*ssa.UnOp)
+	if !isLd || ld.Op != token.MUL {
+		return nil, nil, nil, false
+	}
+	lia, isIA := ld.X.(*ssa.IndexAddr)
+	if !isIA {
+		return nil, nil, nil, false
+	}
+	strip := func(x ssa.Value) ssa.Value {
+		for {
+			ct, isCT := x.(*ssa.ChangeType)
+			if !isCT {
+				return x
+			}
+			x = ct.X
+		}
+	}
+	list := strip(lia.X)
+	var ms *ssa.MakeSlice
+	var viaPhi *ssa.Phi
+	switch x := list.(type) {
+	case *ssa.MakeSlice:
+		ms = x
+	case *ssa.Phi:
+		viaPhi = x
+		feasible := c15FeasibleEdges(x, Guards(ld.Block()))
+		n := 0
+		for i, e := range x.Edges {
+			if !feasible[i] {
+				continue
+			}
+			n++
+			m, isMS := strip(e).(*ssa.MakeSlice)
+			if !isMS || (ms != nil && ms != m) {
+				return nil, nil, nil, false
+			}
+			ms = m
+		}
+		if n == 0 {
+			return nil, nil, nil, false
+		}
+	}
+	if ms == nil {
+		return nil, nil, nil, false
+	}
+	// aliases: the list, type changes of it, phis that merge it with nil
+	alias := map[ssa.Value]bool{ms: true}
+	var stores []*ssa.Store
+	work := []ssa.Value{ms}
+	for len(work) > 0 {
+		a := work[len(work)-1]
+		work = work[:len(work)-1]
+		refs := a.Referrers()
+		if refs == nil {
+			return nil, nil, nil, false
+		}
+		for _, ref := range *refs {
+			switch x := ref.(type) {
+			case *ssa.DebugRef:
+			case *ssa.ChangeType:
+				if !alias[x] {
+					alias[x] = true
+					work = append(work, x)
+				}
+			case *ssa.Phi:
+				for _, e := range x.Edges {
+					if k, isC := e.(*ssa.Const); isC && k.Value == nil {
+						continue
+					}
+					if !alias[strip(e)] && strip(e) != ssa.Value(x) {
+						return nil, nil, nil, false
+					}
+				}
+				if !alias[x] {
+					alias[x] = true
+					work = append(work, x)
+				}
+			case *ssa.IndexAddr:
+				if x.X != a {
+					return nil, nil, nil, false
+				}
+				for _, r2 := range *x.Referrers() {
+					switch y := r2.(type) {
+					case *ssa.DebugRef:
+					case *ssa.Store:
+						if y.Addr != ssa.Value(x) {
+							return nil, nil, nil, false // the element address itself is stored somewhere
+						}
+						stores = append(stores, y)
+					case *ssa.UnOp:
+						if y.Op != token.MUL {
+							return nil, nil, nil, false
+						}
+					default:
+						return nil, nil, nil, false
+					}
+				}
+			case *ssa.Call:
+				b, isB := x.Call.Value.(*ssa.Builtin)
+				if !isB || (b.Name() != "len" && b.Name() != "cap") {
+					return nil, nil, nil, false
+				}
+			default:
+				return nil, nil, nil, false
+			}
+		}
+	}
+	if len(stores) != 1 {
+		return nil, nil, nil, false
+	}
+	st := stores[0]
+	sia := st.Addr.(*ssa.IndexAddr)
+	fn := st.Parent()
+	l := InnermostLoop(Loops(fn), st.Block())
+	if l == nil || l.Blocks[ld.Block()] {
+		return nil, nil, nil, false
+	}
+	idx, bound, okc := countsUp(l)
+	if !okc || sia.Index != idx || !c15SameLen(bound, ms.Len) {
+		return nil, nil, nil, false
+	}
+	if !l.Blocks[ms.Block()] && !(ms.Block() == l.Header || ms.Block().Dominates(l.Header)) {
+		return nil, nil, nil, false
+	}
+	if l.Blocks[ms.Block()] {
+		return nil, nil, nil, false // made anew in every iteration
+	}
+	for _, lt := range l.Latch {
+		if !(st.Block() == lt || st.Block().Dominates(lt)) {
+			return nil, nil, nil, false
+		}
+	}
+	// the regular exit: the header's edge out of the loop
+	var exit *ssa.BasicBlock
+	for _, s := range l.Header.Succs {
+		if !l.Blocks[s] {
+			exit = s
+		}
+	}
+	if exit == nil {
+		return nil, nil, nil, false
+	}
+	if viaPhi != nil {
+		feasible := c15FeasibleEdges(viaPhi, Guards(ld.Block()))
+		for i := range viaPhi.Edges {
+			if feasible[i] && !edgeDominates(l.Header, exit, viaPhi.Block().Preds[i]) {
+				return nil, nil, nil, false
+			}
+		}
+	} else {
+		var others []*ssa.BasicBlock
+		for b := range l.Blocks {
+			if b == l.Header {
+				continue
+			}
+			for _, s := range b.Succs {
+				if !l.Blocks[s] {
+					others = append(others, s)
+				}
+			}
+		}
+		if c15ReachableFrom(others)[ld.Block()] || !(l.Header.Dominates(ld.Block())) {
+			return nil, nil, nil, false
+		}
+	}
+	return st.Val, sia.Index, lia.Index, true
+}
+
+// c15FeasibleEdges: FeasibleEdges, and additionally an edge is infeasible under an outcome "q is nil" about a sibling phi
+// q when the value q receives on that edge is known not to be nil where the edge is taken (the edge's source block is
+// dominated by `e != nil`, as after `if err != nil { return nil, err }` in an inlined helper).
+func c15FeasibleEdges(ph *ssa.Phi, gs []Guard) []bool {
+	feasible := FeasibleEdges(ph, gs)
+	blk := ph.Block()
+	for _, in := range blk.Instrs {
+		q, isPhi := in.(*ssa.Phi)
+		if !isPhi {
+			break
+		}
+		for _, g := range gs {
+			want, kind := guardOn(g, q)
+			if kind != "nil" || !want {
+				continue
+			}
+			for i, e := range q.Edges {
+				if !feasible[i] {
+					continue
+				}
+				pred := blk.Preds[i]
+				egs := Guards(pred)
+				if iff, isIf := pred.Instrs[len(pred.Instrs)-1].(*ssa.If); isIf && pred.Succs[0] != pred.Succs[1] {
+					egs = append(egs, Guard{iff.Cond, pred.Succs[0] == blk, pred})
+				}
+				for _, eg := range egs {
+					if GuardNilness(eg, func(v ssa.Value) bool { return v == e }) == -1 {
+						feasible[i] = false
+					}
+				}
+			}
+		}
+	}
+	return feasible
+}
+
+// c15HeldFact: the comparison `x op y` that HOLDS under the branch outcome g, as origin terms (CmpFact: negations removed,
+// a false outcome complemented, a constant or nil moved to the right) - `a == b` taken true, `!(a != b)` taken true and
+// `a != b` taken false are the same fact.
+func c15HeldFact(tm *Termer, g Guard) (x, y *Term, op token.Token, ok bool) {
+	cx, cy, op, ok := CmpFact(g.Cond, g.True)
+	if !ok {
+		return nil, nil, 0, false
+	}
+	return tm.Of(cx), tm.Of(cy), op, true
+}
+
+// c15LocalListOfSubject: v is a local list `s := make([]T, n)` that is installed as a whole into a field of the object
+// being decoded (`subj.F = s`, exactly one such store) and is otherwise used only for element access and len/cap: the
+// element s[i] is the element subj.F[i] of the decoded object, whether it is filled before or after the list is
+// installed. Returns the field path (as subjPath names it), "" if not.
+func c15LocalListOfSubject(tm *Termer, v ssa.Value, subjPath func(*Term) (string, bool)) string {
+	mk, ok := v.(*ssa.MakeSlice)
+	if !ok || mk.Referrers() == nil {
+		return ""
+	}
+	field := ""
+	refs := append([]ssa.Instruction(nil), *mk.Referrers()...)
+	alias := map[ssa.Value]bool{mk: true}
+	for k := 0; k < len(refs); k++ {
+		switch x := refs[k].(type) {
+		case *ssa.DebugRef, *ssa.IndexAddr:
+		case *ssa.ChangeType: // the named slice type of the field
+			if x.Referrers() == nil {
+				return ""
+			}
+			alias[x] = true
+			refs = append(refs, *x.Referrers()...)
+		case *ssa.Call:
+			b, isB := x.Call.Value.(*ssa.Builtin)
+			if !isB || (b.Name() != "len" && b.Name() != "cap") {
+				return ""
+			}
+		case *ssa.Store:
+			if !alias[x.Val] || field != "" {
+				return ""
+			}
+			ps, isF := subjPath(tm.Of(x.Addr))
+			if !isF {
+				return ""
+			}
+			field = ps
+		default:
+			return ""
+		}
+	}
+	return field
+}
+
+// c15OnlyForLast: the print call fc, with the format alternative fc.Format, is performed only in the last iteration of the
+// counted loop l (counter i, bound n): the branch outcomes it runs under - those that dominate the call when the format
+// is a constant operand, those of the incoming edge when the format is a phi of constants and this alternative arrives on
+// that edge - contain a fact that implies i >= n-1: `i >= n-1`, `i == n-1`, `i > n-1`, `i+1 >= n`, .. in any spelling
+// (CmpFact), with n-1 written as `len(list) - 1`.
+func c15OnlyForLast(tm *Termer, fc fmtCall, l *Loop) bool {
+	if l == nil {
+		return false
+	}
+	// the same length: the same value, len() of the same list value, or the same origin term (`len(t.Params)` evaluated
+	// again inside the loop loads the field anew)
+	sameLen := func(a, b ssa.Value) bool {
+		return c15SameLen(a, b) || tm.Of(a).String() == tm.Of(b).String()
+	}
+	idx, bound, ok := countsUp(l)
+	if !ok {
+		return false
+	}
+	isOne := func(v ssa.Value) bool {
+		k, isC := v.(*ssa.Const)
+		return isC && k.Value != nil && k.Value.ExactString() == "1"
+	}
+	isLast := func(gs []Guard) bool {
+		for _, g := range gs {
+			x, y, op, okc := CmpFact(g.Cond, g.True)
+			if !okc {
+				continue
+			}
+			switch op { // bring into the form  x >= y  /  x == y  /  x > y
+			case token.LEQ:
+				x, y, op = y, x, token.GEQ
+			case token.LSS:
+				x, y, op = y, x, token.GTR
+			}
+			if op != token.GEQ && op != token.EQL && op != token.GTR {
+				continue
+			}
+			for k := 0; k < 2; k++ {
+				// i >= n-1
+				if sub, isB := y.(*ssa.BinOp); isB && sub.Op == token.SUB && x == idx && sameLen(sub.X, bound) && isOne(sub.Y) {
+					return true
+				}
+				// i+1 >= n
+				if add, isB := x.(*ssa.BinOp); isB && add.Op == token.ADD && add != idx && ((add.X == idx && isOne(add.Y)) || (add.Y == idx && isOne(add.X))) && sameLen(y, bound) {
+					return true
+				}
+				if op != token.EQL {
+					break
+				}
+				x, y = y, x // equality reads both ways
+			}
+		}
+		return false
+	}
+	args := fc.Call.Common().Args
+	if len(args) < 2 {
+		return false
+	}
+	switch f := args[1].(type) {
+	case *ssa.Const:
+		return isLast(Guards(fc.Call.Block()))
+	case *ssa.Phi:
+		blk := f.Block()
+		for i, e := range f.Edges {
+			k, isC := e.(*ssa.Const)
+			if !isC {
+				return false // (nested phis of formats are not produced by the writers at hand)
+			}
+			if s, isS := constString(k); !isS || s != fc.Format {
+				continue
+			}
+			pred := blk.Preds[i]
+			gs := Guards(pred)
+			if iff, isIf := pred.Instrs[len(pred.Instrs)-1].(*ssa.If); isIf && pred.Succs[0] != pred.Succs[1] {
+				gs = append(gs, Guard{iff.Cond, pred.Succs[0] == blk, pred})
+			}
+			if !isLast(gs) {
+				return false
+			}
+		}
+		return true
+	}
+	return false
 }
